@@ -3,10 +3,13 @@
 package c08
 
 import (
+	"context"
 	"encoding/json"
 	"fmt"
 	"github.com/DrmagicE/gmqtt"
+	"github.com/DrmagicE/gmqtt/server"
 	"math/rand"
+	"strings"
 	"sync"
 	"time"
 	"verif/harness/yield"
@@ -61,7 +64,12 @@ func (c Case) effDelay() uint32 {
 func runCase(c Case, idx int) (fs []finding, incon string, obs map[string]int, rerr error) {
 	obs = map[string]int{}
 	add := func(sig, what string) { fs = append(fs, finding{sig, what}) }
-	b, err := broker.Start(broker.Options{})
+	b, err := broker.Start(broker.Options{Hooks: server.Hooks{OnMsgArrived: func(ctx context.Context, cl server.Client, req *server.MsgArrivedRequest) error {
+		if req.Message != nil && strings.HasPrefix(req.Message.Topic, "busy/") {
+			time.Sleep(120 * time.Millisecond) // a slow plugin: the packet handler is busy while the rest arrives
+		}
+		return nil
+	}}})
 	if err != nil {
 		return nil, "", nil, err
 	}
@@ -126,6 +134,25 @@ func runCase(c Case, idx int) (fs []finding, incon string, obs map[string]int, r
 	case "disc0":
 		w.Disconnect(0, nil)
 		suppressed = true
+	case "busy_disc0":
+		// the last PUBLISH, the DISCONNECT and the end of the stream arrive back to back while the broker is still
+		// busy with the PUBLISH: the DISCONNECT has been received completely and counts
+		var raw []byte
+		for i := 0; i < 2; i++ {
+			pb, err := mqttx.Encode(&mqttx.Packet{Type: mqttx.PUBLISH, Topic: "busy/" + id, Payload: []byte("last words")}, v)
+			if err != nil {
+				return nil, "", nil, err
+			}
+			raw = append(raw, pb...)
+		}
+		db, err := mqttx.Encode(&mqttx.Packet{Type: mqttx.DISCONNECT}, v)
+		if err != nil {
+			return nil, "", nil, err
+		}
+		_ = w.SendRaw(append(raw, db...), nil)
+		w.Close()
+		suppressed = true
+		obs["disconnects_behind_a_busy_handler"]++
 	case "disc0_invalid":
 		// CONNECT had Session Expiry Interval 0: a DISCONNECT that sets a non-zero one is a protocol error and
 		// "not a valid DISCONNECT" [MQTT-3.14.2-2] - it does not suppress the will
@@ -296,7 +323,7 @@ func runCase(c Case, idx int) (fs []finding, incon string, obs map[string]int, r
 
 func allCases(rng *rand.Rand, quick bool) []Case {
 	var cs []Case
-	ends := []string{"disc0", "disc0_invalid", "disc4", "close", "malformed", "keepalive", "takeover0", "takeover1", "server_close", "terminate"}
+	ends := []string{"disc0", "busy_disc0", "disc0_invalid", "disc4", "close", "malformed", "keepalive", "takeover0", "takeover1", "server_close", "terminate"}
 	for _, v := range []byte{4, 5, 3} {
 		for _, end := range ends {
 			if (end == "disc4" || end == "disc0_invalid") && v != 5 {
@@ -356,6 +383,9 @@ func allCases(rng *rand.Rand, quick bool) []Case {
 			if c.End == "takeover0" && c.effDelay() > 0 {
 				quota = 4 // arming and cancelling the delayed will back to back is a race: several shots
 			}
+			if c.End == "busy_disc0" {
+				quota = 3 // what the handler does with a DISCONNECT queued behind a slow PUBLISH is a race, too
+			}
 			if seen[k] < quota {
 				seen[k]++
 				keep = append(keep, c)
@@ -363,7 +393,7 @@ func allCases(rng *rand.Rand, quick bool) []Case {
 				rest = append(rest, c)
 			}
 		}
-		for len(keep) < 68 && len(rest) > 0 {
+		for len(keep) < 76 && len(rest) > 0 {
 			keep = append(keep, rest[0])
 			rest = rest[1:]
 		}
